@@ -760,6 +760,14 @@ func c15Refuse(t *vk.T, name string, part, parts int, env vk.Env) {
 				_ = txt2
 			}
 			if rule == "" {
+				if cc, ok := back.(*cmp.Config); ok {
+					// every entry of the encoded party table must be present in the restored table (duplicates must be refused, not collapsed)
+					if l := cmpEntries(v.Data); l >= 0 && l != len(cc.Public) {
+						rule = "duplicate-or-dropped-party"
+					}
+				}
+			}
+			if rule == "" {
 				verdict = "valid-object"
 			} else {
 				verdict = "invalid:" + rule
@@ -776,6 +784,26 @@ func c15Refuse(t *vk.T, name string, part, parts int, env vk.Env) {
 	if part == 0 {
 		t.Sample(map[string]any{"type": name, "variants": len(vars), "example_path": vars[len(vars)/3].Path, "example_mutation": vars[len(vars)/3].Mutation})
 	}
+}
+
+// cmpEntries returns the number of entries in the encoded party table of a cmp config (-1 if not determinable).
+func cmpEntries(data []byte) int {
+	root, err := adv.Decode(data)
+	if err != nil {
+		return -1
+	}
+	if w, ok := root.(*adv.Wrapped); ok {
+		root = w.Doc
+	}
+	m, ok := root.(map[interface{}]interface{})
+	if !ok {
+		return -1
+	}
+	arr, ok := m["Public"].([]interface{})
+	if !ok {
+		return -1
+	}
+	return len(arr)
 }
 
 func trunc(b []byte, n int) []byte {
@@ -832,6 +860,37 @@ func c15Semantic(name string, data []byte, r *vk.Rand) []adv.Variant {
 					add(fmt.Sprintf("threshold=%d", v), v)
 				}
 				add("threshold=-1", int64(-1))
+			}
+		}
+	}
+	// another party's entry renamed to the owner's id (and the owner's entry repeated)
+	if m, ok := root.(map[interface{}]interface{}); ok {
+		if own, ok := m["ID"].(string); ok {
+			if arr, ok := m["Public"].([]interface{}); ok {
+				for i, e := range arr {
+					em, ok := e.(map[interface{}]interface{})
+					if !ok {
+						continue
+					}
+					if id, _ := em["ID"].(string); id != own {
+						for _, s := range sites {
+							if s.Path == fmt.Sprintf("/Public[%d]/ID", i) {
+								if b, err := adv.Encode(adv.With(root, s, own, false)); err == nil {
+									out = append(out, adv.Variant{Path: "/Public[other]/ID", Kind: "semantic", Mutation: "renamed-to-owner", Data: b})
+								}
+							}
+						}
+					} else {
+						for _, s := range sites {
+							if s.Path == "/Public" {
+								na := append(append([]interface{}{}, arr...), e)
+								if b, err := adv.Encode(adv.With(root, s, na, false)); err == nil {
+									out = append(out, adv.Variant{Path: "/Public", Kind: "semantic", Mutation: "owner-entry-repeated", Data: b})
+								}
+							}
+						}
+					}
+				}
 			}
 		}
 	}
